@@ -146,6 +146,12 @@ class C01(Check):
             add("auth", big=True, path=0, mode=mode, tx=txi, index=0, receipt=r.hex(" "),
                 proof=[rng.nz_bytes(n).hex(" ") for n in pr], ws=rng.nz_bytes(wl).hex(" "), value=7,
                 spell="blanks")
+        # repeated entries: the same node several times, a receipt equal to a node
+        node = rng.nz_bytes(40).hex()
+        add("auth", path=1, mode="legacy", tx=1, index=1, receipt=receipt.hex(),
+            proof=[node, proof[0].hex(), node, node], ws=ws.hex(), value=7)
+        add("auth", path=1, mode="segwit", tx=0, index=0, receipt=receipt.hex(),
+            proof=[receipt.hex(), receipt.hex()], ws=receipt.hex(), value=7)
         add("hash", path=2, hash=rng.bytes(32).hex(" "), v1=False, spell="blanks")
         add("hash", path=2, hash=rng.bytes(32).hex(" "), v1=True, spell="blanks")
         return shapes
